@@ -296,6 +296,13 @@ func (r *rewriter) block(b *ast.BlockStmt) {
 	b.List = r.stmts(b.List)
 }
 
+// clauses rewrites the case clauses of a switch body (no statement-level points between clauses).
+func (r *rewriter) clauses(b *ast.BlockStmt) {
+	for i, s := range b.List {
+		b.List[i] = r.stmt(s)
+	}
+}
+
 func (r *rewriter) stmts(l []ast.Stmt) []ast.Stmt {
 	for i, s := range l {
 		l[i] = r.stmt(s)
@@ -371,11 +378,11 @@ func (r *rewriter) stmt(s ast.Stmt) ast.Stmt {
 		if n.Tag != nil {
 			n.Tag = r.expr(n.Tag)
 		}
-		r.block(n.Body)
+		r.clauses(n.Body)
 	case *ast.TypeSwitchStmt:
 		n.Init = r.stmt(n.Init)
 		n.Assign = r.stmt(n.Assign)
-		r.block(n.Body)
+		r.clauses(n.Body)
 	case *ast.CaseClause:
 		for i := range n.List {
 			n.List[i] = r.expr(n.List[i])
